@@ -23,7 +23,7 @@ inductive Obs where
   | mdel (c : Nat) (deleted : Bool)
   | ret (c : Nat) (kind : Nat) (v : Nat)
   | evict (k : Nat)
-  | loopStart (l : Nat) | loopStop (l : Nat) | shutdown (l : Nat) | loopClose (l : Nat)
+  | loopStart (l : Nat) | loopStop (l : Nat) | shutdown (l : Nat) | loopClose (l : Nat) | loopResume (l : Nat)
 
 def pcOf (s : State) (c : Nat) : Pc := (s.cs ⟨c⟩).pc
 
@@ -70,6 +70,7 @@ def applyObs (s : State) : Obs → Option State
     | _ => none
   | .ret c kind v =>
     let o := outcomeOf kind v
+    if kind > 2 then none else            -- there is no fourth way for a call to end
     match pcOf s c with
     | .done o' => if o = o' then some s else none
     | .waiting => if o = .cancelled then step s (.cancelWait ⟨c⟩) else none
@@ -79,6 +80,7 @@ def applyObs (s : State) : Obs → Option State
   | .loopStop l => step s (.loopStop ⟨l⟩)
   | .shutdown l => step s (.shutdownBegin ⟨l⟩)
   | .loopClose l => step s (.loopClose ⟨l⟩)
+  | .loopResume l => step s (.loopResume ⟨l⟩)
 
 def decObs (s : String) : Option Obs :=
   let n := fun (x : String) => x.toNat?
@@ -102,6 +104,7 @@ def decObs (s : String) : Option Obs :=
   | ["lp", l] => do some (.loopStop (← n l))
   | ["sb", l] => do some (.shutdown (← n l))
   | ["lc", l] => do some (.loopClose (← n l))
+  | ["lu", l] => do some (.loopResume (← n l))
   | _ => none
 
 def replay : State → List Obs → Nat → Option Nat
